@@ -422,6 +422,11 @@ class SimCheckTimers(CheckTimerProvider):
 
     def provide_check_timer(self, local_entity_id, remote_entity_id, entity_type):
         secs = self.w.cfg.check_s_send if int(entity_type) == 0 else self.w.cfg.check_s_recv
+        # the interval is the user's to choose per remote entity: a second remote entity (id 3, "ghost") has its own
+        # (much shorter) one where a population sets it (C11 history towards the ghost)
+        per_remote = getattr(self.w, "check_s_by_remote", None)
+        if per_remote and int(remote_entity_id.value) in per_remote:
+            secs = per_remote[int(remote_entity_id.value)]
         self.provided.append((self.w.clock.t, int(entity_type)))
         return Countdown.from_seconds(secs)
 
